@@ -582,8 +582,7 @@ fn main() {
     unaligned_cases::<u64>(&mut ctx);
     unaligned_cases::<usize>(&mut ctx);
     unaligned_cases::<u128>(&mut ctx);
-    if t || ctx.opt("long").is_some() {
-        long_parallel(&mut ctx);
-    }
+    let _ = t;
+    long_parallel(&mut ctx);
     ctx.finish();
 }
